@@ -23,7 +23,7 @@ LEVEL = META['level']
 RULE = ('a case = one (personality, request route path, service) combination executed, or one textual path parsed; enumerated over fixed lists plus seeded variations; '
         'distinct by the tuple; non-trivial = the accept/refuse oracle and the tag-access counters were both evaluated')
 ASSUMPTIONS = ['an Unconnected Send with a zero-length route path counts as "no route path"']
-REQUIRED = ['text:non-canonical-address', 'personality:none', 'personality:simple', 'personality:single', 'personality:multi', 'personality:address-link', 'accepted', 'refused',
+REQUIRED = ['personality:routed', 'text:non-canonical-address', 'personality:none', 'personality:simple', 'personality:single', 'personality:multi', 'personality:address-link', 'accepted', 'refused',
             'request:bare', 'request:empty-route-path', 'request:equal', 'request:different', 'monitor:no-tag-access-on-refusal', 'monitor:served-correctly',
             'tcp:route-path-option', 'tcp:simple-option', 'text:route-paths', 'text:connection-paths', 'service:bundle']
 TIMEOUT = {'quick': 300, 'thorough': 1800}
@@ -44,6 +44,8 @@ PERSONALITIES = [
     ('address-link', [{'port': 3, 'link': '2001:db8::1'}]),
     ('address-link', [{'port': 1, 'link': '12'}]),
     ('multi', [{'port': 1, 'link': 0}, {'port': 2, 'link': '10.0.0.9'}]),
+    ('routed', [{'port': 1, 'link': 0}]),
+    ('routed', [{'port': 3, 'link': '::1'}, {'port': 1, 'link': 5}]),
     ('multi', [{'port': 1, 'link': 2}, {'port': 1, 'link': 3}, {'port': 15, 'link': 4}]),
 ]
 
@@ -172,7 +174,13 @@ def in_process(ctx, rng, pname, conf):
     counter = {'get': 0, 'set': 0}
     ucls = None
     if conf is not None:
-        ucls = type('UCMM', (ucmm.UCMM,), {'route_path': conf})
+        attrs = {'route_path': conf}
+        if pname == 'routed':
+            # a router personality: besides its own route path it holds a table of routes to other devices (none of the probing
+            # requests addresses one of them: their first segment is never port 9)
+            attrs['route'] = {'9/1-15': 'localhost:1', '9/77': 'localhost:2'}
+            ctx.count('personality:routed')
+        ucls = type('UCMM', (ucmm.UCMM,), attrs)
     sim = simdrv.Sim(CFG, UCMM_class=ucls, attribute_class=make_attr_class(device, counter))
     model = arraymodel.Model(CFG)
     try:
